@@ -14,7 +14,7 @@ from typing import Any, Dict, List, Optional, Tuple
 
 from . import e3_c09 as C09
 from . import e3_c10 as C10
-from .e3_engine import Env, Violation, world_from_json, world_to_json, tag_text, TAGGED_TYPES_FULL, TAGGED_TYPES_PARTIAL, ERR_TYPES
+from .e3_engine import Env, Violation, world_from_json, world_to_json, tag_text, TAGGED_TYPES_FULL, TAGGED_TYPES_PARTIAL, ERR_TYPES, construct_violation
 from .refmodel import World, expected_dump, real_dump, diff_dumps
 
 PROP = "C16"
@@ -497,7 +497,13 @@ def _initial(eng: C16Engine) -> Optional[str]:
 
 
 def run_ops(env: Env, wcomp: Dict[str, Any], ops: List[List[Any]]) -> Dict[str, Any]:
-    eng = C16Engine(env, world_from_json(wcomp["w"]), wcomp["via"])
+    try:
+        eng = C16Engine(env, world_from_json(wcomp["w"]), wcomp["via"])
+    except Exception as ex:
+        bad = construct_violation(PROP, ex, wcomp["via"])
+        if bad is None:
+            raise
+        return bad
     res: Dict[str, Any] = {"violation": None}
     try:
         pre = _initial(eng)
@@ -524,7 +530,14 @@ def generate(env: Env, rseed: int, thorough: bool):
     g = stream(rseed, "workload")
     via = "parse" if g.random() < 0.4 else "api"
     world = gen_world(stream(rseed, "universe"), via)
-    eng = C16Engine(env, world, via)
+    wj0 = world_to_json(world)
+    try:
+        eng = C16Engine(env, world, via)
+    except Exception as ex:
+        bad = construct_violation(PROP, ex, via)
+        if bad is None:
+            raise
+        return {"w": wj0, "via": via}, [], bad
     wj = world_to_json(eng.w)
     res: Dict[str, Any] = {"violation": None}
     try:
